@@ -3,12 +3,12 @@ from vlib.tok import f64, s as S, lst
 ID = 'C13'
 FLAVOUR = {'quick': 'plain', 'thorough': 'asan'}
 THEOREMS = ['Nix.C13.step_refines', 'Nix.C13.rel_observe', 'Nix.C13.run_invariant',
-            'Nix.C13.dims_gapfree_invariant', 'Nix.C13.getDimension_defined_iff', 'Nix.C13.dimensions_indices',
+            'Nix.C13.dims_gapfree_invariant', 'Nix.C13.createGroup_keeps_gapfree', 'Nix.C13.getDimension_defined_iff', 'Nix.C13.dimensions_indices',
             'Nix.C13.append_gets_next_index',
             'Nix.C13.dim_roundtrip_sampled', 'Nix.C13.dim_roundtrip_range', 'Nix.C13.dim_roundtrip_set', 'Nix.C13.dim_roundtrip_frame',
             'Nix.C13.dim_roundtrip_alias', 'Nix.C13.reopen_preserves',
             'Nix.C13.ticks_sorted_invariant', 'Nix.C13.ticks_sorted_pairwise', 'Nix.C13.interval_positive_invariant',
-            'Nix.C13.alias_mirrors_array', 'Nix.C13.alias_write_through', 'Nix.C13.array_write_shows_in_alias', 'Nix.C13.alias_preconditions',
+            'Nix.C13.alias_mirrors_array', 'Nix.C13.alias_write_through', 'Nix.C13.array_write_shows_in_alias', 'Nix.C13.alias_preconditions', 'Nix.C13.alias_only_first',
             'Nix.C13.deleteDimensions_none', 'Nix.C13.refused_iff_illegal', 'Nix.C13.history_roundtrip']
 RULE = ('random histories on one data array (12 element types, rank 1-3, extents 0-5) with a data frame in its block (1-4 columns) and one '
         'in another block: 8-40 calls from {append Set / Range / Sampled / Alias / DataFrame dimension (by column index, by column name, whole '
@@ -86,7 +86,7 @@ class G:
     """generator state: what the array looks like if every legal call was accepted and every illegal one refused"""
     def __init__(self, rng, tier):
         self.rng = rng
-        self.dt = rng.choice(NUMERIC + NUMERIC + ['String', 'Bool'])
+        self.dt = rng.choice(NUMERIC + ['String', 'Bool'])
         self.rank = rng.choice([1, 1, 1, 2, 3])
         self.shape = [rng.choice([0, 1, 2, 3, 5]) for _ in range(self.rank)]
         self.ncols = rng.randint(1, 4)
@@ -196,13 +196,17 @@ class G:
             elif k in 'RA': self.emit('dd_set %d %s' % (i, r.choice(['ticks ' + lst(ticks_bad(r)), 'unit ' + unit(r, True), 'unit x', 'label x'])))
             elif k == 'T': self.emit('dd_set %d label x' % i)
             else: self.emit('dd_set %d unit %s' % (i, unit(r)))
-        elif q < 0.95: self.emit('dd_arr %s' % r.choice(['label x', 'unit x', 'unit ' + S(' \t')]))
+        elif q < 0.95:
+            if self.kinds == ['A'] and r.random() < 0.6: self.emit('dd_arr unit %s' % unit(r, True))       # non-SI unit under a sole alias
+            else: self.emit('dd_arr %s' % r.choice(['label x', 'unit x', 'unit ' + S(' \t')]))
         else:
             self.emit('dd_arr ext %s' % lst([str(2)] * (self.rank + 1)))
 
 def history(rng, tier):
     g = G(rng, tier)
     n = rng.randint(8, 18 if tier == 'quick' else 40)
+    if not g.numeric1() and rng.random() < 0.5:
+        g.emit('dd_app alias')                       # 2-d / String / Bool array: must be refused
     for _ in range(n):
         q = rng.random()
         if g.ro:
@@ -230,7 +234,7 @@ def history(rng, tier):
 
 def cases(tier, seed, rng):
     from vlib.runner import Case
-    n = 600 if tier == "quick" else 6000
+    n = 600 if tier == 'quick' else 2500
     return [Case(history(rng, tier), 'gen:dimdesc') for _ in range(n)]
 
 def nontrivial(case, tags):
